@@ -139,6 +139,13 @@ def build_layout(w, layout):
         files["symlink-out"] = ln
         open(os.path.join(main, "bin.dat"), "wb").write(bytes(range(256)) * 4)
         files["binary"] = os.path.join(main, "bin.dat")
+        # a tracked file that has been replaced by a named pipe nobody writes to: reading it would block for ever
+        fifo = os.path.join(main, "pipe.txt")
+        if not os.path.lexists(fifo):
+            open(fifo, "w").write("one\ntwo\n")
+            w.git("add", "pipe.txt", plain=True, cwd=main, tick=False); w.git("commit", "-q", "-m", "a file that becomes a pipe", plain=True, cwd=main, tick=False)
+            os.remove(fifo); os.mkfifo(fifo)
+        files["fifo"] = fifo
     if nested:
         files["nested-repo"] = os.path.join(nested, "a.txt")
     if layout == "multi":
